@@ -474,8 +474,8 @@ def run_batch(ctx, fe, state, items):
                 the_app.set_interest_filter(HS, lambda n, p, a: handler_log.append(('HS', [bytes(x) for x in n])))
         await asyncio.sleep(0)
         BATCHES[0] += 1
-        if state == 'busy' and fe == 'v1' and BATCHES[0] % 2:
-            # the wall clock is set forwards by two hours while the bystanders are pending (their lifetime, one hour, is a duration:
+        if state == 'busy' and BATCHES[0] % 2:
+            # the wall clock is set forwards by two hours while the bystanders (both front-ends) are pending (their lifetime, one hour, is a duration:
             # the waiting coroutines run on the loop's clock and have not timed out)
             S.step_wall(7200)
             ctx.event('batch-after-a-forward-step-of-the-wall-clock')
